@@ -205,6 +205,106 @@ def wal_ops(sym, tier):
     return r
 
 
+def second_crash(sym, tier):
+    """Crash, recover, KEEP WRITING, crash again.  One sequential writer: phase 1 puts 2..3 keys and settles;
+    crash() + recover_from_crash(); phase 2 deletes or overwrites k0, overwrites k1 and adds new keys (enough for
+    a memtable flush, whose WAL discard must also cover the entries the first recovery replayed); the second
+    crash comes after a symbolic number of phase-2 events; recover (twice) and read every key."""
+    r = Result()
+    pol = sym.choice("policy", 3)
+    msize = 2 + sym.choice("memtable_minus_2", 3)
+    wal = WriteAheadLog("wal", sync_policy=_policy(pol))
+    t = LSMTree("lsm", memtable_size=msize, compaction_strategy=SizeTieredCompaction(min_sstables=4), wal=wal, max_levels=3)
+    n1 = 2 + sym.choice("phase1_writes_minus_2", 2)
+    v = [sym.int(f"v{i}", 1 + 10 * i, 9 + 10 * i) for i in range(5)]
+    k0_deleted = sym.bool("phase2_deletes_k0")
+    crash2_after = sym.int("second_crash_after_events", 0, 40)
+    phase1 = [("k0", v[0]), ("k1", v[1]), ("k2", v[2])][:n1]
+    phase2 = [("k0", None if k0_deleted else v[3]), ("k1", v[4]), ("k3", 71), ("k4", 72), ("k5", 73)]
+    keys = ["k0", "k1", "k2", "k3", "k4", "k5"]
+    log = []          # [seq, key, value or None, durable at return]
+    real_append = wal.append
+
+    def append(key, value):
+        seq = yield from real_append(key, value)
+        log.append([seq, key, None if value is _TOMBSTONE else value, wal.synced_up_to >= seq])
+        return seq
+
+    wal.append = append
+    started = []
+    todo = list(phase1) + list(phase2)
+
+    def body(self):
+        k, val = todo.pop(0)
+        started.append((k, val))
+        if val is None:
+            yield from t.delete(k)
+        else:
+            yield from t.put(k, val)
+
+    w = _Writer("w", body)
+    sim = Simulation(entities=[t, w])
+    c = sim.control
+    P2 = 1_000_000_000
+    sim.schedule([mk_event(10_000_000 * (i + 1), "go", w) for i in range(len(phase1))]
+                 + [mk_event(P2 + 10_000_000 * (i + 1), "go", w) for i in range(len(phase2))])
+    c.pause()
+    sim.run()
+    for _ in range(400):                                     # phase 1 runs until nothing of it is left in the heap
+        nxt = c.peek_next(1)
+        if not nxt or nxt[0].time.nanoseconds >= P2:
+            break
+        c.step(1)
+    synced1 = [e for e in log if e[3]]
+    if len(synced1) >= 2 and len([e for e in wal.recover() if e.sequence_number <= wal.synced_up_to]) >= 2:
+        r.wit.add("first_recovery_replays_two_synced_entries")
+    t.crash()
+    t.recover_from_crash()
+    base = {k: t.get_sync(k) for k in keys}
+    for k in keys:
+        d = [e for e in log if e[1] == k and e[3]]
+        if d and base[k] != d[-1][2]:
+            r.bad("durably_acknowledged_write_survives_crash", {"key": k, "recovered": base[k], "wal_log": list(log), "crash": "first"})
+        if not d and base[k] not in [None] + [val for (kk, val) in started if kk == k]:
+            r.bad("no_value_that_was_never_written_appears", {"key": k, "recovered": base[k]})
+    n_log1, n_started1 = len(log), len(started)
+    sst_before = sum(len(level) for level in t._levels) if hasattr(t, "_levels") else None
+    if crash2_after > 0:
+        c.step(crash2_after)
+    if not c.is_paused:
+        r.wit.add("ran_to_completion")
+    log2, started2 = log[n_log1:], started[n_started1:]
+    if sst_before is not None and sum(len(level) for level in t._levels) > sst_before:
+        r.wit.add("second_crash_after_a_phase2_flush_completed")
+    if len(t._immutable_memtables) > 0:
+        r.wit.add("second_crash_in_the_middle_of_a_flush")
+    t.crash()
+    t.recover_from_crash()
+    got1 = {k: t.get_sync(k) for k in keys}
+    t.crash()
+    t.recover_from_crash()
+    got2 = {k: t.get_sync(k) for k in keys}
+    if got1 != got2:
+        r.bad("recovering_twice_equals_recovering_once", got1, got2)
+    for k in keys:
+        writes = sorted([e for e in log2 if e[1] == k])
+        attempted = [val for (kk, val) in started2 if kk == k]
+        durable = [e for e in writes if e[3]]
+        if durable:
+            last = durable[-1]
+            ok = [last[2]] + [e[2] for e in writes if e[0] > last[0]] + [val for val in attempted if val not in [e[2] for e in writes]]
+        else:
+            ok = [base[k]] + attempted
+        if got1[k] not in ok:
+            old = [e[2] for e in log[:n_log1] if e[1] == k]
+            clause = "no_overwritten_or_deleted_value_is_resurrected" if (got1[k] in old and got1[k] != base[k]) or (durable and got1[k] in old) \
+                else "durably_acknowledged_write_survives_crash"
+            r.bad(clause, {"key": k, "recovered": got1[k], "acceptable": ok, "after_first_recovery": base[k], "phase1_log": log[:n_log1],
+                           "phase2_log": log2, "memtable_size": msize})
+    r.obs = {"base": base, "recovered": got1, "log": log}
+    return r
+
+
 MANIFEST = {
     "note": "Crash point = a symbolic number of delivered events (control.step), i.e. between any two simulation events; a crash inside one "
             "handler is not a state the engine exposes. 'Durably acknowledged' = wal.append() returned with synced_up_to >= its sequence.",
@@ -230,4 +330,11 @@ HARNESSES = [
       bounds=lambda tier: {"writers": 2, "writes": 4, "keys": 2, "values": "symbolic", "second writer start": "symbolic ns [0, 2.5 ms]", "crash after": "symbolic number of events [0,40]",
                            "memtable size": [1, 2], "policies": POLICIES},
       outside=["crash in the middle of a compaction (min_sstables=4 is not reached by 4 writes)", "disk model", "more than 4 writes"]),
+    H(name="c15_second_crash", fn=second_crash, shape="S", budget=lambda tier: 900.0,
+      cubes=lambda tier: [{"policy": a, "memtable_minus_2": b, "phase2_deletes_k0": d} for a in range(3) for b in range(3) for d in range(2)],
+      require=lambda tier: ["first_recovery_replays_two_synced_entries", "second_crash_after_a_phase2_flush_completed", "ran_to_completion"], classify=classify,
+      functions=["LSMTree.put/delete/_flush_memtable/crash/recover_from_crash (bookkeeping of replayed WAL sequences)", "WriteAheadLog.append/discard/crash/recover", "Memtable.put/flush"],
+      bounds=lambda tier: {"writer": "1, sequential", "phase 1": "2..3 puts, then settled", "first crash": "at the quiet moment after phase 1", "phase 2": "delete|put k0, put k1, 3 new keys",
+                           "second crash after": "symbolic number of phase-2 events [0,40]", "memtable size": [2, 3, 4], "values": "symbolic", "policies": POLICIES},
+      outside=["first crash in the middle of phase 1 (c15_crash_recovery covers single crashes at any event)", "three or more crash/recover cycles", "concurrent writers across two crashes"]),
 ]
